@@ -34,6 +34,8 @@ Definition renum_cval (r : N -> link) (v : cval) : cval := match v with VLink l 
 Definition renum_cap (r : N -> link) (c : cap) : cap :=
   mkCap (can c) (wth c) (map (fun e => (fst e, renum_cval r (snd e))) (nb c)).
 
+Definition renum_fx (r : N -> link) (fx : effects) : effects := (map r (fst fx), option_map r (snd fx)).
+
 (* the validation context of the world with its link-valued parts renumbered *)
 Definition ctx_bytes (r : N -> link) (w : wcase) : ctx :=
   let c := wc_ctx w in
@@ -47,7 +49,9 @@ Definition ctx_bytes (r : N -> link) (w : wcase) : ctx :=
 Definition sb_srv (c : sbcase) : server :=
   let b := sb_case c in
   mkServer (bc_server b) (ctx_bytes (renum_of (sb_links c)) (bc_world b))
-    (map (fun e => mkHandler (fst e) (std_desc (fst e)) (fun _ => if snd e =? 1 then HFail else HOk)) (bc_handlers b)).
+    (map (fun e => mkHandler (fst e) (std_desc (fst e))
+                     (fun _ => handler_result (map (fun x => (fst x, renum_fx (renum_of (sb_links c)) (snd x))) (bc_fx b)) e))
+         (bc_handlers b)).
 
 (* reading a block as a token, cheaply: DID strings from a table computed once per case file, the
    signing input examined only for the keys the signature table names *)
@@ -94,7 +98,7 @@ Definition run_sb (tbl : list (bstr * bstr)) (c : sbcase) : served :=
 
 (* 0 agreement; 1 whole-request outcome; 2 a receipt missing/unexpected; 3 receipt class;
    4 ran / issuer of a receipt; 5 handler calls; 6 number of receipts; 7 answered 400 although the
-   request was served; 9 fuel *)
+   request was served; 8 effects of a receipt (fork links in order, join); 9 fuel *)
 Definition check_sb (tbl : list (bstr * bstr)) (c : sbcase) : N :=
   let b := sb_case c in
   let r := renum_of (sb_links c) in
@@ -115,7 +119,8 @@ Definition check_sb (tbl : list (bstr * bstr)) (c : sbcase) : N :=
     match filter (fun x => negb (x =? 0)) per with
     | x :: _ => x
     | [] => if negb (multiset_eqb call_eqb calls (map (fun k => (fst k, renum_cap r (snd k))) (ob_calls b))) then 5
-            else if negb (N.of_nat (length rep) =? ob_nreceipts b) then 6 else 0
+            else if negb (N.of_nat (length rep) =? ob_nreceipts b) then 6
+            else if negb (check_fx rep (map (fun o => (r (fst o), renum_fx r (snd o))) (ob_fx b))) then 8 else 0
     end
   end.
 
